@@ -105,7 +105,7 @@ func runC18(c *core.Ctx) {
 			capT = sendT
 		}
 		var off time.Duration
-		ocls := t.Weighted(3, 2, 2, 2, 2, 2)
+		ocls := t.Weighted(3, 2, 2, 2, 2, 2, 3)
 		const maxOff = int64(1)<<31*1_000_000_000 - 1
 		switch ocls {
 		case 0:
@@ -123,6 +123,12 @@ func runC18(c *core.Ctx) {
 			}
 		case 5:
 			off = time.Duration(int64(t.Draw(uint64(maxOff)))) * time.Duration(1-2*t.Intn(2))
+		case 6: // whole seconds of either sign (zero fractional part), small and large, odd and even
+			secs := int64([]int{2, 1, 4, 3600, 1 << 30, 86400, 3}[t.Intn(7)])
+			if t.Bool() {
+				secs = int64(t.Intn(1 << 31))
+			}
+			off = time.Duration(secs) * time.Second * time.Duration(1-2*t.Intn(2))
 		}
 		withOffset := t.Chance(2, 3)
 		if off < 0 && off%time.Second == 0 && withOffset {
